@@ -82,3 +82,123 @@ def selftest_format_table(_p=None):
     if not math.isnan(struct.unpack('>d', nan)[0]):
         return {'ok': False, 'detail': 'NaN'}
     return {'ok': True, 'cases': cases}
+
+
+def selftest_memio(_p=None):
+    """RopeArray vs a real bytearray under BufferedOutput's access pattern; FakeFS vs a real file."""
+    import os
+    import tempfile
+    from vf.stubs.rope import Rope
+    from vf.stubs.memio import RopeArray, FakeFS
+    rnd = random.Random(3)
+    cases = 0
+    for _ in range(200):
+        size = rnd.randrange(1, 60)
+        real = bytearray(size)
+        stub = RopeArray(size)
+        fill = 0
+        srcs = {}
+        for k in range(rnd.randrange(0, 5)):
+            n = rnd.randrange(0, 25)
+            data = bytes(rnd.randrange(256) for _ in range(n))
+            srcs[f's{k}'] = data
+            new = fill + n
+            real[fill:new] = data
+            stub[fill:new] = Rope.source(f's{k}', n)
+            fill = new
+            cases += 1
+            if (len(real) != size) != stub.resized and new <= size:
+                return {'ok': False, 'detail': 'resize flag'}
+            if new > size:
+                break
+        if fill <= size and not stub.resized:
+            srcs['zeros'] = bytes(size)
+            for cut in (0, fill // 2, fill, size):
+                if stub[:cut].to_bytes(srcs) != bytes(real[:cut]):
+                    return {'ok': False, 'detail': f'prefix read {cut} of fill {fill}'}
+                cases += 1
+    fd, path = tempfile.mkstemp()
+    os.close(fd)
+    try:
+        fs = FakeFS({path: Rope.lit(b'old stuff')})
+        with open(path, 'wb') as f:
+            f.write(b'old stuff')
+        for mode, data in (('wb', b'abc'), ('ab', b'defg'), ('ab', b''), ('wb', b'x')):
+            with open(path, mode) as f:
+                f.write(data)
+            with fs.open(path, mode) as f:
+                f.write(data)
+            with open(path, 'rb') as f:
+                want = f.read()
+            cases += 1
+            if fs.files[path].to_bytes() != want:
+                return {'ok': False, 'detail': f'FakeFS {mode}'}
+    finally:
+        os.remove(path)
+    return {'ok': True, 'cases': cases}
+
+
+def selftest_tokens_vs_strict(_p=None):
+    """The symbolic-friendly token parser and the concrete strict reader agree on every EFLR of a real file written by
+    the unmodified package (structure, counts, codes, values)."""
+    import io
+    import sys
+    sys.stderr = io.StringIO()
+    import numpy as np
+    from dliswriter import DLISFile
+    from vf.rp66 import strict, tokens as tk
+    from vf.replay.build import write_and_read
+    df = DLISFile()
+    lf = df.add_logical_file()
+    lf.add_origin('ORIGIN', file_set_number=11, creation_time='2020/01/01 00:00:00', programs=['a', 'bb'], run_number=7)
+    ax = lf.add_axis('AX', coordinates=[1.5, 2.5], spacing=0.5)
+    ch = lf.add_channel('CH', data=np.arange(6, dtype=np.int16).reshape(3, 2), units='m', axis=ax)
+    ch2 = lf.add_channel('CH2', data=np.arange(3, dtype=np.float32), dataset_name='other')
+    lf.add_zone('Z', set_name='ZS')
+    lf.add_frame('FR', channels=(ch, ch2), description='frame')
+    z = lf.add_zone('Z', domain='TIME', maximum=12.5, minimum=1.0, set_name='ZS')
+    lf.add_parameter('P', values=[[1, 2], [3, 4]], zones=[z, z], dimension=[2])
+    lf.add_comment('CM', text=['x' * 200, ''])
+    lf.add_group('G', object_list=[z])
+    lf.add_equipment('E', status=1, serial_number='s')
+    data = write_and_read(df)
+    r = strict.parse_file(data)
+    cases = 0
+    for rec in r['records']:
+        if not rec.is_eflr:
+            continue
+        e = strict.parse_eflr(rec.body)
+        ps, rule = tk.parse_eflr([('b', b) for b in rec.body])
+        cases += 1
+        if ps is None:
+            return {'ok': False, 'detail': f'token parser rejects set {e.set_type}: rule {rule}'}
+        if tk.text_str(ps.type) != e.set_type or (ps.name is None) != (e.set_name is None):
+            return {'ok': False, 'detail': f'set header differs for {e.set_type}'}
+        if [tk.text_str(a.label) for a in ps.template] != [a.label for a in e.template]:
+            return {'ok': False, 'detail': f'template differs for {e.set_type}'}
+        if len(ps.objects) != len(e.objects):
+            return {'ok': False, 'detail': f'object count differs for {e.set_type}'}
+        for (ob1, at1), (ob2, at2) in zip(ps.objects, e.objects):
+            if (ob1[0], ob1[1], tk.text_str(ob1[2])) != ob2:
+                return {'ok': False, 'detail': f'object name differs in {e.set_type}'}
+            for a1, a2 in zip(at1, at2):
+                cases += 1
+                if a1.absent != a2.absent:
+                    return {'ok': False, 'detail': f'absent flag differs for {a2.label}'}
+                if a1.absent:
+                    continue
+                if a1.count != a2.count or a1.code != a2.code or (a1.values is None) != (a2.value is None):
+                    return {'ok': False, 'detail': f'characteristics differ for {a2.label}: {a1.count},{a1.code} vs {a2.count},{a2.code}'}
+                if a1.values is not None and len(a1.values) != len(a2.value):
+                    return {'ok': False, 'detail': f'value count differs for {a2.label}'}
+                if a1.values is not None:
+                    for v1, v2 in zip(a1.values, a2.value):
+                        if v1[0] == 'int' and v1[1] != v2:
+                            return {'ok': False, 'detail': f'int value differs for {a2.label}'}
+                        if v1[0] in ('ident', 'ascii') and tk.text_str(v1[1]) != v2:
+                            return {'ok': False, 'detail': f'text value differs for {a2.label}'}
+                        if v1[0] == 'float' and struct.unpack('>d' if len(v1[1]) == 8 else '>f', bytes(v1[1]))[0] != v2:
+                            return {'ok': False, 'detail': f'float value differs for {a2.label}'}
+                        if v1[0] == 'obname' and (v1[1][0], v1[1][1], tk.text_str(v1[1][2])) != v2:
+                            return {'ok': False, 'detail': f'obname differs for {a2.label}'}
+    return {'ok': True, 'cases': cases}
